@@ -357,6 +357,7 @@ impl GenericHardwareSource {
             related_source_id: 0xffff.into(),
             _flags: 0,
             enabled: enabled as u8,
+            notification: NotificationStructure::new(NotificationType::default()),
             ..Default::default()
         }
     }
@@ -575,6 +576,7 @@ impl GenericHardwareSourceV2 {
             related_source_id: 0xffff.into(),
             _flags: 0,
             enabled: enabled as u8,
+            notification: NotificationStructure::new(NotificationType::default()),
             ..Default::default()
         }
     }
